@@ -3,9 +3,11 @@ import json
 
 from harness.core import pool, tb
 
-PROOF_MODULE = "OdeVerif.Proofs.C05"
+PROOF_MODULE = ["OdeVerif.Proofs.C05", "OdeVerif.Proofs.RefineFromFunction"]
+GENERATED = ['Constants', 'PyFromFunction']
 THEOREMS = ["OdeVerif.C05.order_le_max", "OdeVerif.C05.defaults_documented", "OdeVerif.C05.accept_verified", "OdeVerif.C05.accept_minimal",
-            "OdeVerif.C05.reject_means_unverified", "OdeVerif.C05.companion_flow_exact", "OdeVerif.C05.steps_compose", "OdeVerif.C05.function_reproduced"]
+            "OdeVerif.C05.reject_means_unverified", "OdeVerif.C05.companion_flow_exact", "OdeVerif.C05.steps_compose", "OdeVerif.C05.function_reproduced",
+            "OdeVerif.Refine.fromFunction_refines", "OdeVerif.Refine.fromFunction_refines_default"]
 LEVEL = "proof"
 
 # (definition, minimal ODE order or None if outside the supported class / above the maximum, cost class)
